@@ -491,7 +491,7 @@ def _derivative_transformation_matrix(deriv_func_list: list, point: float, order
             f"functions {len(deriv_func_list)} provided."
         )
     # Calculate derivatives of transformation evaluated at the point
-    derivs_at_pt = np.array([dev(np.float64(point)) for dev in deriv_func_list], dtype=float)
+    derivs_at_pt = np.array([dev(np.float64(point)) for dev in deriv_func_list], dtype=float).reshape(numb_derivs)
     deriv_transf = np.zeros((order, order))
     for i in range(0, order):
         for j in range(0, i + 1):
